@@ -415,9 +415,16 @@ func (c *ComputedStyle) cascadeValue(key pr.PropKey) (value pr.DeclaredValue, sa
 
 	parent_style := c.parentStyle
 	if rawTokens, isPending := value.(pr.RawTokens); isPending { // Property with pending values, validate them.
-		var solvedTokens []Token
+		var (
+			solvedTokens []Token
+			invalidVar   bool
+		)
 		for _, token := range rawTokens {
-			tokens := resolveVar(c.variables, token, utils.NewSet())
+			tokens, invalid := resolveVar(c.variables, token, utils.NewSet())
+			if invalid {
+				solvedTokens, invalidVar = rawTokens, true
+				break
+			}
 			if tokens == nil {
 				solvedTokens = append(solvedTokens, token)
 			} else {
@@ -425,7 +432,9 @@ func (c *ComputedStyle) cascadeValue(key pr.PropKey) (value pr.DeclaredValue, sa
 			}
 		}
 		var err error
-		if len(solvedTokens) == 0 {
+		if invalidVar {
+			err = errors.New("undefined or cyclic variable without fallback")
+		} else if len(solvedTokens) == 0 {
 			err = errors.New("no value")
 		} else if shortand != 0 {
 			// the tokens must be expanded (shortand are never variable)
@@ -1532,12 +1541,16 @@ func (styleFor StyleFor) SetPageComputedStylesT(pageType utils.PageElement, html
 	}
 }
 
-// Return tokens with resolved CSS variables.
+// Return tokens with resolved CSS variables, or nil if [token] does not
+// contain var().
 // [visiting] holds the names of the variables being resolved: a variable
-// referencing itself (directly or not) is invalid and only its fallback is used.
-func resolveVar(computed map[string]pr.RawTokens, token Token, visiting utils.Set) []Token {
+// referencing itself (directly or not) is invalid.
+// A reference to an undefined, cyclic or invalid variable is replaced by its
+// fallback; without a usable fallback it is invalid at computed-value time
+// and [invalid] is true: the declaration using it is then invalid as a whole.
+func resolveVar(computed map[string]pr.RawTokens, token Token, visiting utils.Set) (tokens []Token, invalid bool) {
 	if !validation.HasVar(token) {
-		return nil
+		return nil, false
 	}
 
 	fn := token.(pa.FunctionBlock)
@@ -1546,13 +1559,17 @@ func resolveVar(computed map[string]pr.RawTokens, token Token, visiting utils.Se
 		// smaller than the token, so the recursion ends
 		arguments := []Token{}
 		for _, argument := range fn.Arguments {
-			if resolved := resolveVar(computed, argument, visiting); resolved != nil {
+			resolved, invalid := resolveVar(computed, argument, visiting)
+			if invalid {
+				return nil, true
+			}
+			if resolved != nil {
 				arguments = append(arguments, resolved...)
 			} else {
 				arguments = append(arguments, argument)
 			}
 		}
-		return []Token{pa.NewFunctionBlock(token.Pos(), fn.Name, arguments)}
+		return []Token{pa.NewFunctionBlock(token.Pos(), fn.Name, arguments)}, false
 	}
 
 	_, args := pa.ParseFunction(token)
@@ -1560,24 +1577,36 @@ func resolveVar(computed map[string]pr.RawTokens, token Token, visiting utils.Se
 	varNameToken, default_ := args[0], args[1:]
 	variableName := varNameToken.(pa.Ident).Value
 
-	source := default_
+	// the value of the variable when it may be used, then the fallback
+	var sources [][]Token
 	if !visiting.Has(variableName) { // else: cyclic reference
-		if l := computed[variableName]; len(l) != 0 {
-			source = l
+		if l, defined := computed[variableName]; defined {
+			sources = append(sources, l)
+			// only the call that marks the variable unmarks it: a nested, cyclic
+			// occurrence must leave the mark of the outer one in place
+			visiting.Add(variableName)
+			defer delete(visiting, variableName)
 		}
-		// only the call that marks the variable unmarks it: a nested, cyclic
-		// occurrence must leave the mark of the outer one in place
-		visiting.Add(variableName)
-		defer delete(visiting, variableName)
+	}
+	if len(default_) != 0 {
+		sources = append(sources, default_)
 	}
 
-	computedValue := []Token{}
-	for _, value := range source {
-		if resolved := resolveVar(computed, value, visiting); resolved != nil {
-			computedValue = append(computedValue, resolved...)
-		} else {
-			computedValue = append(computedValue, value)
+sourcesLoop:
+	for _, source := range sources {
+		computedValue := []Token{}
+		for _, value := range source {
+			resolved, invalid := resolveVar(computed, value, visiting)
+			if invalid {
+				continue sourcesLoop
+			}
+			if resolved != nil {
+				computedValue = append(computedValue, resolved...)
+			} else {
+				computedValue = append(computedValue, value)
+			}
 		}
+		return computedValue, false
 	}
-	return computedValue
+	return nil, true
 }
